@@ -161,6 +161,20 @@ func window(lg *countLogger, d time.Duration) (logs int64, cpuMs, wallMs float64
 	return lg.n.Load() - l0, float64(cpuNow()-c0) / 1e6, float64(time.Since(t0)) / 1e6
 }
 
+// quietWindow is window, looked at twice when the first look is suspicious: a reader loop that spins keeps spinning until
+// Close, whereas a burst of unrelated work in this process (GC, the scheduler under machine load, a previous case's
+// connection teardown) is over after some milliseconds.  The quieter of the two looks is reported.
+func quietWindow(lg *countLogger, d time.Duration) (logs int64, cpuMs, wallMs float64) {
+	logs, cpuMs, wallMs = window(lg, d)
+	if cpuMs > 0.25*wallMs || logs > 500 {
+		l2, c2, w2 := window(lg, 5*d)
+		if c2/w2 < cpuMs/wallMs {
+			return l2, c2, w2
+		}
+	}
+	return
+}
+
 type worker struct {
 	srv      *servers
 	dir      string
@@ -274,7 +288,7 @@ func (w *worker) runStreamable(cs *Case, obs *Obs) {
 		case <-time.After(3 * time.Second):
 		}
 		obs.PendingReturned = true
-		obs.LogWindow, obs.CPUWindowMs, obs.WindowMs = window(lg, 60*time.Millisecond)
+		obs.LogWindow, obs.CPUWindowMs, obs.WindowMs = quietWindow(lg, 60*time.Millisecond)
 		obs.LogWindow = 0 // the HTTP clients log per event, not per loop turn: only CPU time counts here
 	}
 	ctx, cancel = context.WithTimeout(context.Background(), 2500*time.Millisecond)
@@ -351,7 +365,7 @@ func (w *worker) runLegacy(cs *Case, obs *Obs) {
 	} else {
 		obs.PendingReturned = true
 	}
-	obs.LogWindow, obs.CPUWindowMs, obs.WindowMs = window(lg, 60*time.Millisecond)
+	obs.LogWindow, obs.CPUWindowMs, obs.WindowMs = quietWindow(lg, 60*time.Millisecond)
 	obs.LogWindow = 0
 	st.mu.Lock()
 	obs.Answers = append(obs.Answers, st.answers...)
@@ -514,7 +528,7 @@ func (w *worker) runStdio(cs *Case, obs *Obs) {
 	cancel()
 	obs.Next, obs.NextMs = r.obs, r.ms
 	w.collect(obs, results, cancels)
-	obs.LogWindow, obs.CPUWindowMs, obs.WindowMs = window(lg, 200*time.Millisecond)
+	obs.LogWindow, obs.CPUWindowMs, obs.WindowMs = quietWindow(lg, 200*time.Millisecond)
 	obs.Notes = rec.take()
 	sort.Ints(obs.Notes)
 	if b, err := os.ReadFile(path + ".log"); err == nil {
